@@ -42,6 +42,35 @@ def fallback_defs(P: Project):
     raise AnalysisError("anchor: `if PYDANTIC_AVAILABLE:` split not found in mcp_pydantic_base")
 
 
+def class_cache_keys(T, methods):
+    """(names defined by two model classes, [(method, key text, key definition, keyed by identity?, line)]) for every
+    access to a class-level `…_cache__` mapping in the fallback base class's methods."""
+    names = {}
+    for q, m in T.models.items():
+        names.setdefault(m.name, []).append(q)
+    dup = sorted(n for n, qs in names.items() if len(qs) > 1)
+    out = []
+    for mname, fn in sorted(methods.items()):
+        name_vars = {ast.unparse(s_.targets[0]) for s_ in walk_local(fn) if isinstance(s_, ast.Assign) and len(s_.targets) == 1 and ast.unparse(s_.value).endswith(".__name__")}
+        for n in walk_local(fn):
+            key = None
+            if isinstance(n, ast.Subscript) and "_cache__" in ast.unparse(n.value):
+                key = n.slice
+            elif isinstance(n, ast.Call) and isinstance(n.func, ast.Attribute) and n.func.attr in ("get", "setdefault", "pop") and "_cache__" in ast.unparse(n.func.value) and n.args:
+                key = n.args[0]
+            elif isinstance(n, ast.Compare) and len(n.ops) == 1 and isinstance(n.ops[0], (ast.In, ast.NotIn)) and "_cache__" in ast.unparse(n.comparators[0]):
+                key = n.left
+            if key is None:
+                continue
+            kt = ast.unparse(key)
+            kdefs = [s_ for s_ in walk_local(fn) if isinstance(s_, ast.Assign) and ast.unparse(s_.targets[0]) == kt]
+            full = ast.unparse(kdefs[-1].value) if kdefs else kt
+            uses_name = "__name__" in full or any(v in {x.id for x in ast.walk(ast.parse(full, mode="eval")) if isinstance(x, ast.Name)} for v in name_vars)
+            has_identity = "id(" in full
+            out.append((mname, kt, full, not (uses_name and not has_identity and dup), n.lineno))
+    return dup, out
+
+
 def lit_values(ann: ast.AST) -> Optional[Set]:
     if isinstance(ann, ast.Subscript) and ast.unparse(ann.value).split(".")[-1] == "Literal":
         elts = ann.slice.elts if isinstance(ann.slice, ast.Tuple) else [ann.slice]
@@ -347,3 +376,13 @@ def check(P: Project, R: Report) -> None:
         R.need(mi is not None, f"anchor vanished: {cname}")
         idf = mi.fields.get("id")
         R.ob("R5", f"{cname}.id is Union[int, str]", idf is not None and idf.ann_text in ("Union[int, str]", "Optional[Union[int, str]]"), f"{mi.ci.module.rel}:{idf.lineno if idf else 0}", idf.ann_text if idf else "missing")
+
+    # ------------------------------------------------------------------ R9: what a payload is validated against does not depend on history
+    R.rule("R9", "the fallback's class-level caches (resolved field types, hints, alias maps) are keyed by class identity: the package defines several model classes twice under the same name, and a cache entry shared by two of them makes the type a payload is validated against depend on which class was validated first in the process")
+    dup, keys = class_cache_keys(T, fb_methods)
+    R.need(keys, "anchor: the fallback base class no longer reads a class-level cache")
+    for mname, kt, full, ok, lineno in keys:
+        R.ob("R9", f"fallback {mname}: cache key `{kt}` identifies the class", ok, f"{base_rel}:{lineno}",
+             f"key `{full}` is built from the class name only; {', '.join(dup[:4])} … are each defined by two model classes with different field types, so the second class to be validated is checked against the first one's resolved types: a payload valid for it is rejected (or typed as the other variant) under the fallback and accepted by Pydantic",
+             sample=f"R9 {mname}: {kt} := {full[:60]}")
+
